@@ -4,7 +4,7 @@
 //! patterns' alphabet — so that the oracles of the driver can exhibit a concrete failing input.
 //! `pm-harness focus <file>`: one record prefix per line (`E2E S …`, `E2E M …`, `E2E G …`).
 use crate::e2e::{matrix_case, set_quiet, string_case, Heur, MatPat};
-use crate::pg::{decoy_hosts, host_with_copy, pg_case, GDesc, PgPat};
+use crate::pg::{decoy_hosts, fold_hosts, host_with_copy, pg_case, GDesc, PgPat};
 use crate::rng::Rng;
 use portmatching::string::CharVar;
 
@@ -177,6 +177,7 @@ fn focus_pg(rng: &mut Rng, pats: &[PgPat], fallback_fail: bool, thorough: bool) 
     let mut hosts: Vec<GDesc> = pats.iter().map(|p| p.0.clone()).collect();
     for p in pats {
         hosts.extend(decoy_hosts(&p.0));
+        hosts.extend(fold_hosts(&p.0));
     }
     let n = if thorough { 600 } else { 200 };
     for _ in 0..n {
